@@ -18,8 +18,25 @@ def install_module_rule(rep):
     for p in ps:
         if p.end[0] == 'raise':
             continue
-        stores = [e for e in p.events('substore') if e[2] == ('SUB', ('ATTR', ('VAR', 'sys'), 'modules'), ('PARAM', name))
-                  and e[3] == ('PARAM', module)]
+        want_t, want_v = ('SUB', ('ATTR', ('VAR', 'sys'), 'modules'), ('PARAM', name)), ('PARAM', module)
+        stores = [e for e in p.events('substore') if e[2] == want_t and e[3] == want_v]
+        if not stores:
+            # iterative form: an always-entered loop whose every iteration begins by registering the
+            # current (name, module); in the first iteration these are the arguments
+            from .. import walkers
+            assigned_before = set()
+            for s in p.steps:
+                if s[0] == 'E' and s[1] == 'assign':
+                    assigned_before.add(s[2])
+                if s[0] == 'LOOP' and isinstance(s[1], ast.While) and isinstance(s[1].test, ast.Constant) \
+                        and s[1].test.value is True and not ({name, module} & assigned_before):
+                    first = {('PHI', name, s[3]): ('PARAM', name), ('PHI', module, s[3]): ('PARAM', module)}
+                    if s[2] and all(any(e[0] == 'E' and e[1] == 'substore'
+                                        and walkers.substitute(e[2], first) == want_t
+                                        and walkers.substitute(e[3], first) == want_v for e in bp.steps)
+                                    for bp in s[2]):
+                        stores = [s]
+                    break
         dotted = any((t[2] is False and t[1] == ('CMP', ('NotIn',), ('CONST', "'.'"), ('PARAM', name))) or
                      (t[2] is True and t[1] == ('CMP', ('In',), ('CONST', "'.'"), ('PARAM', name))) for t in p.tests())
         rep.oblige(bool(stores))
